@@ -1,7 +1,524 @@
 package rules
 
-import "verif/internal/report"
+import (
+	"fmt"
+	"go/constant"
+	"go/token"
+	"go/types"
+	"sort"
+	"strings"
 
-// ruleSchema is the E5 bucket schema rule (key agreement, no raw cross-bucket copy).
+	"golang.org/x/tools/go/ssa"
+
+	"verif/internal/an"
+	"verif/internal/report"
+)
+
+// bucketOp is one (operation site, bucket binding) pair of the wallet's key/value schema.
+type bucketOp struct {
+	Fn     *ssa.Function
+	Site   ssa.Instruction
+	Method string
+	Bucket string // label: StoreBucketMeta field / keystore bucket description
+	Ascent []ssa.Instruction
+	Keys   []string // key width classes (Put/Get/Delete)
+	Vals   []string // value provenance (Put): "valueof:<bucket>" for verbatim cross reads
+	Ctx    string   // outermost function of the binding context (for reports)
+}
+
+var schemaCache = map[*an.Prog][]bucketOp{}
+
+func isBucketIface(t types.Type) bool {
+	n := an.NamedOf(t)
+	return n != nil && n.Obj().Pkg() != nil && n.Obj().Pkg().Path() == pkgDB && n.Obj().Name() == "Bucket"
+}
+
+func isNamedIface(t types.Type, pkg, name string) bool {
+	n := an.NamedOf(t)
+	return n != nil && n.Obj().Pkg() != nil && n.Obj().Pkg().Path() == pkg && n.Obj().Name() == name
+}
+
+// bucketLeaf: values at which a Bucket is produced.
+func bucketLeaf(v ssa.Value) bool {
+	call, ok := v.(*ssa.Call)
+	if !ok {
+		if ex, isEx := v.(*ssa.Extract); isEx {
+			call, ok = ex.Tuple.(*ssa.Call)
+			if !ok {
+				return false
+			}
+		} else {
+			return false
+		}
+	}
+	cc := &call.Call
+	if cc.IsInvoke() {
+		switch cc.Method.Name() {
+		case "FetchBucket", "Bucket", "NewBucket", "TopLevelBucket", "CreateTopLevelBucket":
+			return true
+		}
+		return false
+	}
+	if f := cc.StaticCallee(); f != nil && f.Pkg != nil && f.Pkg.Pkg.Path() == pkgDB && f.Name() == "GetOrCreateBucket" {
+		return true
+	}
+	return false
+}
+
+// bucketLabel names the bucket produced at leaf v (in context stack/ascent).
+func bucketLabel(p *an.Prog, o an.Origin) string {
+	v := o.V
+	if ex, ok := v.(*ssa.Extract); ok {
+		v = ex.Tuple
+	}
+	call := v.(*ssa.Call)
+	cc := &call.Call
+	var arg ssa.Value
+	name := ""
+	if cc.IsInvoke() {
+		name = cc.Method.Name()
+		if len(cc.Args) > 0 {
+			arg = cc.Args[0]
+		}
+	} else {
+		name = "GetOrCreateBucket"
+		if len(cc.Args) > 1 {
+			arg = cc.Args[1]
+		}
+	}
+	if arg == nil {
+		return name + "()"
+	}
+	// resolve the argument (meta field or name constant) in the same context
+	tr := &an.Tracer{P: p, Follow: o.Ascent, Leaf: func(x ssa.Value) bool {
+		switch y := x.(type) {
+		case *ssa.UnOp:
+			_, isFA := y.X.(*ssa.FieldAddr)
+			_, isG := y.X.(*ssa.Global)
+			return y.Op == token.MUL && (isFA || isG)
+		case *ssa.Const:
+			return true
+		}
+		return false
+	}}
+	var labels []string
+	for _, ao := range tr.OriginsFrom(arg, o.Stack) {
+		d := p.Desc(ao.V)
+		if i := strings.LastIndex(d, "."); i >= 0 && !strings.HasPrefix(d, "\"") {
+			d = d[i+1:]
+		}
+		labels = append(labels, d)
+	}
+	labels = uniq(labels)
+	if name == "FetchBucket" {
+		return strings.Join(labels, "|")
+	}
+	return name + "(" + strings.Join(labels, "|") + ")"
+}
+
+func uniq(s []string) []string {
+	sort.Strings(s)
+	var out []string
+	for i, x := range s {
+		if i == 0 || x != s[i-1] {
+			out = append(out, x)
+		}
+	}
+	return out
+}
+
+func constInt(v ssa.Value) (int64, bool) {
+	c, ok := v.(*ssa.Const)
+	if !ok || c.Value == nil || c.Value.Kind() != constant.Int {
+		return 0, false
+	}
+	return c.Int64(), true
+}
+
+// keyLeaf decides where the key trace stops.
+func keyLeaf(v ssa.Value) bool {
+	switch x := v.(type) {
+	case *ssa.MakeSlice, *ssa.Const, *ssa.Global, *ssa.Alloc:
+		return true
+	case *ssa.Slice:
+		_, lok := constInt(x.Low)
+		_, hok := constInt(x.High)
+		if x.High != nil && hok && (x.Low == nil || lok) {
+			return true
+		}
+		if x.Low == nil && x.High == nil {
+			if pt, ok := x.X.Type().Underlying().(*types.Pointer); ok {
+				if _, isArr := pt.Elem().Underlying().(*types.Array); isArr {
+					return true
+				}
+			}
+			return false // full slice of a slice: look through
+		}
+		return true // partial slice with non-constant bound: opaque
+	case *ssa.Convert:
+		return true
+	case *ssa.Call:
+		if _, isB := x.Call.Value.(*ssa.Builtin); isB {
+			return true
+		}
+		if x.Call.IsInvoke() {
+			return true
+		}
+	case *ssa.UnOp:
+		if x.Op == token.MUL {
+			if _, ok := x.X.(*ssa.FieldAddr); ok {
+				return true
+			}
+			if _, ok := x.X.(*ssa.Global); ok {
+				return true
+			}
+		}
+	}
+	return false
+}
+
+// keyClass names the width class of a key origin.
+func keyClass(p *an.Prog, o an.Origin, follow []ssa.Instruction) string {
+	switch x := o.V.(type) {
+	case *ssa.MakeSlice:
+		if n, ok := constInt(x.Len); ok {
+			return fmt.Sprintf("len:%d", n)
+		}
+		return "make@" + sk(x.Parent())
+	case *ssa.Const:
+		if x.Value == nil {
+			return "nil"
+		}
+		return "const"
+	case *ssa.Slice:
+		lo, lok := int64(0), true
+		if x.Low != nil {
+			lo, lok = constInt(x.Low)
+		}
+		if x.High != nil {
+			if hi, hok := constInt(x.High); hok && lok {
+				return fmt.Sprintf("len:%d", hi-lo)
+			}
+		}
+		if x.Low == nil && x.High == nil {
+			if pt, ok := x.X.Type().Underlying().(*types.Pointer); ok {
+				if arr, isArr := pt.Elem().Underlying().(*types.Array); isArr {
+					return fmt.Sprintf("len:%d", arr.Len())
+				}
+			}
+		}
+		return "opaque:slice@" + sk(x.Parent())
+	case *ssa.Convert:
+		if b, ok := x.X.Type().Underlying().(*types.Basic); ok && b.Info()&types.IsString != 0 {
+			return "str"
+		}
+		return "opaque:convert"
+	case *ssa.Call:
+		if b, isB := x.Call.Value.(*ssa.Builtin); isB {
+			return b.Name() + "@" + sk(x.Parent())
+		}
+		if x.Call.IsInvoke() && x.Call.Method.Name() == "Key" && isNamedIface(x.Call.Value.Type(), pkgDB, "Iterator") {
+			// bucket of the iterator
+			tr := &an.Tracer{P: p, Follow: follow, Leaf: func(v ssa.Value) bool {
+				c, ok := v.(*ssa.Call)
+				return ok && c.Call.IsInvoke() && c.Call.Method.Name() == "NewIterator"
+			}}
+			var bl []string
+			for _, io := range tr.OriginsFrom(x.Call.Value, o.Stack) {
+				if c, ok := io.V.(*ssa.Call); ok && c.Call.IsInvoke() && c.Call.Method.Name() == "NewIterator" {
+					btr := &an.Tracer{P: p, Follow: follow, Leaf: bucketLeaf}
+					for _, bo := range btr.OriginsFrom(c.Call.Value, io.Stack) {
+						if bucketLeaf(bo.V) {
+							bl = append(bl, bucketLabel(p, bo))
+						}
+					}
+				}
+			}
+			bl = uniq(bl)
+			if len(bl) > 0 {
+				return "keyof:" + strings.Join(bl, "|")
+			}
+			return "opaque:Iterator.Key"
+		}
+		return "opaque:" + calleeName(p, x)
+	case *ssa.UnOp:
+		if fa, ok := x.X.(*ssa.FieldAddr); ok {
+			d := p.Desc(x)
+			_ = fa
+			if strings.HasSuffix(d, "Entry.Key") {
+				return "entry-key"
+			}
+			return "field:" + d
+		}
+		if g, ok := x.X.(*ssa.Global); ok {
+			return "global:" + g.Name()
+		}
+	case *ssa.Global:
+		return "global:" + x.Name()
+	case *ssa.Alloc:
+		return "opaque:alloc"
+	case *ssa.Parameter:
+		return "entry-param:" + sk(x.Parent())
+	}
+	return "opaque:" + p.Desc(o.V)
+}
+
+// valueLeaf: stop at bucket reads.
+func valueLeaf(v ssa.Value) bool {
+	if ex, ok := v.(*ssa.Extract); ok {
+		v = ex.Tuple
+	}
+	switch x := v.(type) {
+	case *ssa.Call:
+		if x.Call.IsInvoke() {
+			return true
+		}
+		if _, isB := x.Call.Value.(*ssa.Builtin); isB {
+			return true
+		}
+	case *ssa.MakeSlice, *ssa.Const, *ssa.Convert:
+		return true
+	case *ssa.UnOp:
+		if x.Op == token.MUL {
+			if _, ok := x.X.(*ssa.FieldAddr); ok {
+				return true
+			}
+		}
+	}
+	return false
+}
+
+// schemaOps computes the operation table of the module (cached per program).
+func schemaOps(p *an.Prog) []bucketOp {
+	if ops, ok := schemaCache[p]; ok {
+		return ops
+	}
+	var ops []bucketOp
+	for _, f := range p.ModFuncs {
+		pk := an.FuncPkg(f)
+		if pk == nil {
+			continue
+		}
+		switch pk.Path() {
+		case pkgTxmgr, pkgKeystore, pkgWallet:
+		default:
+			continue
+		}
+		an.Instrs(f, func(in ssa.Instruction) {
+			cc := an.CallOf(in)
+			if cc == nil || !cc.IsInvoke() || !isBucketIface(cc.Value.Type()) {
+				return
+			}
+			m := cc.Method.Name()
+			switch m {
+			case "Put", "Get", "Delete", "NewIterator", "GetByPrefix", "Clear", "DeleteBucket":
+			default:
+				return
+			}
+			btr := &an.Tracer{P: p, Leaf: bucketLeaf}
+			for _, bo := range btr.Origins(cc.Value) {
+				op := bucketOp{Fn: f, Site: in, Method: m, Ascent: bo.Ascent}
+				if bucketLeaf(bo.V) {
+					op.Bucket = bucketLabel(p, bo)
+				} else {
+					op.Bucket = "?" + p.Desc(bo.V)
+				}
+				op.Ctx = sk(f)
+				if len(bo.Ascent) > 0 {
+					op.Ctx = sk(bo.Ascent[len(bo.Ascent)-1].Parent())
+				}
+				if (m == "Put" || m == "Get" || m == "Delete") && len(cc.Args) > 0 {
+					ktr := &an.Tracer{P: p, Follow: bo.Ascent, Leaf: keyLeaf}
+					var ks []string
+					for _, ko := range ktr.Origins(cc.Args[0]) {
+						ks = append(ks, keyClass(p, ko, bo.Ascent))
+					}
+					op.Keys = uniq(ks)
+				}
+				if m == "Put" && len(cc.Args) > 1 {
+					vtr := &an.Tracer{P: p, Follow: bo.Ascent, Leaf: valueLeaf, ThroughSlice: true}
+					var vs []string
+					for _, vo := range vtr.Origins(cc.Args[1]) {
+						if vo.ViaArg {
+							continue // passed through a function as an argument: transformed
+						}
+						vv := vo.V
+						if ex, ok := vv.(*ssa.Extract); ok {
+							vv = ex.Tuple
+						}
+						call, ok := vv.(*ssa.Call)
+						if !ok || !call.Call.IsInvoke() {
+							continue
+						}
+						var recv ssa.Value
+						switch {
+						case call.Call.Method.Name() == "Get" && isBucketIface(call.Call.Value.Type()):
+							recv = call.Call.Value
+						case call.Call.Method.Name() == "Value" && isNamedIface(call.Call.Value.Type(), pkgDB, "Iterator"):
+							// iterator → its bucket
+							itr := &an.Tracer{P: p, Follow: bo.Ascent, Leaf: func(v ssa.Value) bool {
+								c, ok := v.(*ssa.Call)
+								return ok && c.Call.IsInvoke() && c.Call.Method.Name() == "NewIterator"
+							}}
+							for _, io := range itr.OriginsFrom(call.Call.Value, vo.Stack) {
+								if c, ok := io.V.(*ssa.Call); ok && c.Call.IsInvoke() {
+									b2 := &an.Tracer{P: p, Follow: bo.Ascent, Leaf: bucketLeaf}
+									for _, bo2 := range b2.OriginsFrom(c.Call.Value, io.Stack) {
+										if bucketLeaf(bo2.V) {
+											vs = append(vs, "valueof:"+bucketLabel(p, bo2))
+										}
+									}
+								}
+							}
+							continue
+						default:
+							continue
+						}
+						b2 := &an.Tracer{P: p, Follow: bo.Ascent, Leaf: bucketLeaf}
+						for _, bo2 := range b2.OriginsFrom(recv, vo.Stack) {
+							if bucketLeaf(bo2.V) {
+								vs = append(vs, "valueof:"+bucketLabel(p, bo2))
+							}
+						}
+					}
+					op.Vals = uniq(vs)
+				}
+				ops = append(ops, op)
+			}
+		})
+	}
+	schemaCache[p] = ops
+	return ops
+}
+
+// ruleSchema: key agreement + no raw cross-bucket copy on the given bucket labels.
 func ruleSchema(c *report.Ctx, buckets []string) {
+	p := c.P
+	ops := schemaOps(p)
+	want := map[string]bool{}
+	for _, b := range buckets {
+		want[b] = true
+	}
+	// Kput per bucket
+	kput := map[string]map[string]bool{}
+	for _, op := range ops {
+		if op.Method == "Put" {
+			if kput[op.Bucket] == nil {
+				kput[op.Bucket] = map[string]bool{}
+			}
+			for _, k := range op.Keys {
+				kput[op.Bucket][k] = true
+			}
+		}
+	}
+	// expand keyof:B into Kput(B)
+	expand := func(k string) []string {
+		if strings.HasPrefix(k, "keyof:") {
+			var out []string
+			for _, b := range strings.Split(k[len("keyof:"):], "|") {
+				for kk := range kput[b] {
+					if !strings.HasPrefix(kk, "keyof:") {
+						out = append(out, kk)
+					}
+				}
+			}
+			return uniq(out)
+		}
+		return []string{k}
+	}
+	undecided := func(k string) bool {
+		return strings.HasPrefix(k, "opaque:") || k == "entry-key" || strings.HasPrefix(k, "field:") || strings.HasPrefix(k, "entry-param:") || strings.HasSuffix(k, "@"+"") || strings.HasPrefix(k, "append@")
+	}
+
+	c.Rule("key-agreement", "for every bucket the width class of each Get/Delete key is one the bucket's Put sites use (the writers define the schema; a reader with another key layout can never hit)", 8)
+	seenBuckets := map[string]bool{}
+	nUndecided := 0
+	for _, op := range ops {
+		if !want[op.Bucket] {
+			continue
+		}
+		seenBuckets[op.Bucket] = true
+		if op.Method != "Get" && op.Method != "Delete" {
+			continue
+		}
+		site := sk(op.Fn) + ":" + op.Bucket + "." + op.Method
+		if op.Ctx != sk(op.Fn) {
+			site = op.Ctx + "~>" + site
+		}
+		allowed := map[string]bool{}
+		for k := range kput[op.Bucket] {
+			for _, e := range expand(k) {
+				allowed[e] = true
+			}
+		}
+		var bad, und []string
+		for _, k := range op.Keys {
+			for _, e := range expand(k) {
+				if e == "nil" {
+					continue // nil key: only on the error-return paths of the key constructors (callers check the error first)
+				}
+				if undecided(e) {
+					und = append(und, e)
+					continue
+				}
+				if !allowed[e] {
+					bad = append(bad, k)
+				}
+			}
+		}
+		if len(und) > 0 {
+			nUndecided++
+		}
+		akeys := keysOf(allowed)
+		if len(bad) > 0 {
+			c.Fail(site+"["+strings.Join(uniq(bad), ",")+"]", fmt.Sprintf("key of class %v is used against bucket %s whose writers use %v: the lookup can never match what was stored", uniq(bad), op.Bucket, akeys), posOf(c, op.Site), ascentText(p, op)...)
+		} else {
+			c.OK(site, fmt.Sprintf("key classes %v ⊆ Kput(%s)=%v", op.Keys, op.Bucket, akeys), posOf(c, op.Site))
+		}
+	}
+	c.Extra["schema_undecided_sites"] = nUndecided
+	for b := range want {
+		if !seenBuckets[b] {
+			c.Fail("bucket:"+b, "no operation on bucket "+b+" resolved; the schema rule lost this bucket", "")
+		}
+	}
+
+	c.Rule("no-raw-cross-bucket-copy", "a value read from bucket B' is never stored verbatim into another bucket B (each bucket has its own value layout, txmgr/type.go); it must pass through a conversion function", 10)
+	for _, op := range ops {
+		if !want[op.Bucket] || op.Method != "Put" {
+			continue
+		}
+		site := sk(op.Fn) + ":" + op.Bucket + ".Put"
+		if op.Ctx != sk(op.Fn) {
+			site = op.Ctx + "~>" + site
+		}
+		var bad []string
+		for _, v := range op.Vals {
+			if strings.HasPrefix(v, "valueof:") && v[len("valueof:"):] != op.Bucket {
+				bad = append(bad, v)
+			}
+		}
+		if len(bad) > 0 {
+			c.Fail(site+"["+strings.Join(bad, ",")+"]", fmt.Sprintf("the value stored into bucket %s is the raw value read from %v: readers of %s expect its own layout", op.Bucket, bad, op.Bucket), posOf(c, op.Site), ascentText(p, op)...)
+		} else {
+			c.OK(site, fmt.Sprintf("value provenance %v", op.Vals), posOf(c, op.Site))
+		}
+	}
+}
+
+func keysOf(m map[string]bool) []string {
+	var s []string
+	for k := range m {
+		s = append(s, k)
+	}
+	sort.Strings(s)
+	return s
+}
+
+func ascentText(p *an.Prog, op bucketOp) []string {
+	var s []string
+	for _, a := range op.Ascent {
+		s = append(s, "via "+sk(a.Parent())+" @"+p.InstrPos(a))
+	}
+	return s
 }
